@@ -1,3 +1,6 @@
+\* the code as it stands: what holds regardless of the known leads
+\* (tools/checks/c09.py builds its configurations from the same template; this file is the thorough-tier one, for manual runs:
+\*  java -cp $TLA_CP tlc2.TLC -config StreamCli_mc_asis.cfg StreamCliMC)
 SPECIFICATION Spec
 CONSTANTS
   KindSet = {"post", "sa"}
